@@ -193,9 +193,11 @@ def sha_mismatches(tree, paths):
 
 
 def corruption_kind(stored, original):
-    """Name the way `stored` differs from `original`: the known bzrformats RabinGroupCompressor defect turns a NUL that
-    starts an insert after a copy into b'd' (same length, every differing byte is 0x00 -> 0x64); anything else is unexplained."""
+    """Name the way `stored` differs from `original`: the known bzrformats RabinGroupCompressor defect lets a copy
+    instruction run into the next record's header when an insert that follows a copy starts with NUL, so the NUL reads
+    back as that record's type marker, b'd' (delta) or b'f' (fulltext): same length, every differing byte is
+    0x00 -> 0x64/0x66.  Anything else is unexplained."""
     if isinstance(stored, bytes) and isinstance(original, bytes) and len(stored) == len(original) and stored != original:
-        if all(o == 0 and s == 0x64 for s, o in zip(stored, original) if s != o):
-            return "nul-byte-read-back-as-d"
+        if all(o == 0 and s in (0x64, 0x66) for s, o in zip(stored, original) if s != o):
+            return "nul-byte-read-back-as-group-record-marker"
     return "sha1-mismatch"
